@@ -3,13 +3,17 @@ import random
 from .. import core, gen, ref
 from . import cu
 
-MODULES = ['DsdVerif.Props.C06']
-GEN_FILES = []
+MODULES = ['DsdVerif.Props.C06', 'DsdVerif.Props.PyFuncs']
+GEN_FILES = ['PyFuncs']
 THEOREMS = ['Dsd.' + t for t in [
     'Bracket.matchW_sound', 'Bracket.matchW_complete', 'Bracket.matching_unique', 'Bracket.matching_accepted',
     'C06.mpt_shape', 'C06.mpt_involution_nested', 'C06.mpt_rejects_iff', 'C06.mpt_accepts_iff', 'C06.db_of_mpt',
     'C06.strand_table_roundtrip_str', 'C06.sequence_roundtrip_str', 'C06.strand_table_roundtrip_list',
-    'C06.sequence_roundtrip_list', 'C06.rotateOnce_error_kind', 'C06.mpt_error_kind']]
+    'C06.sequence_roundtrip_list', 'C06.rotateOnce_error_kind', 'C06.mpt_error_kind',
+    # the functions as written in the source (Gen/PyFuncs.lean, regenerated on every run) equal the model, for every input
+    'PyFuncs.py_make_pair_table_eq', 'PyFuncs.py_pair_table_to_dot_bracket_eq', 'PyFuncs.py_mpt_rejects_iff',
+    'PyFuncs.py_mpt_error_kind', 'PyFuncs.py_mpt_accepts_iff', 'PyFuncs.py_mpt_shape', 'PyFuncs.py_db_of_mpt',
+    'PyFuncs.py_rotate_error_kind', 'PyFuncs.py_rotate_short_structure_faults']]
 ASSUMPTIONS = [
     'make_pair_table is modelled as the linear stack matcher followed by re-indexing to loci (Model/Complex.lean); '
     'the re-indexing and the error kinds are tied to the code by the correspondence stream',
@@ -21,7 +25,8 @@ MANIFEST = {
             'db_of_mpt (exact round trip for non-empty strands and any break character), strand_table_roundtrip_* and '
             'rotateOnce_error_kind are proved for strings of any length; the model is tied to complex_utils.py by an exhaustive '
             'correspondence stream over every string up to a bounded length plus random long/deep/many-stranded structures, and an '
-            'independent quadratic matcher checks the real code directly.',
+            'independent quadratic matcher checks the real code directly.'
+            ' STATEMENT LEVEL, FROM THE SOURCE: translator/pyfunc.py transcribes make_pair_table and pair_table_to_dot_bracket statement by statement from the working tree into Gen/PyFuncs.lean on every run (locals as a record, every for-loop a fold over a named step function, Python primitives from Model/PyPrelude); py_make_pair_table_eq and py_pair_table_to_dot_bracket_eq prove the transcriptions equal to the model for EVERY text, break character and table, so py_mpt_rejects_iff, py_mpt_accepts_iff, py_mpt_shape, py_mpt_error_kind and the exact round trip py_db_of_mpt are theorems about the code as written; the transcriptions are also run against the implementation on every generated input (stream complex_utils.source-derived).',
     'note': 'The Lean model re-indexes linear positions to loci instead of carrying loci through the loop; Python list/str/dict '
             'semantics are modelled; trusted base as in DESIGN.md section 3.',
     'technique': 'Lean 4 invariant proof of the stack matcher (induction over the word) + uniqueness of non-crossing matchings; correspondence check',
@@ -57,6 +62,10 @@ def gen_ops(res, rng):
             res.count('random_wellformed')
         ops.append(('mpt', s, '+'))
     return ops
+
+
+def quick_tier(res):
+    return res.tier == 'quick'
 
 
 def run(res, proof):
@@ -183,6 +192,29 @@ def run(res, proof):
         core.compare_streams(res, 'complex_utils.tables', lines, allimpl, model)
     except core.DriverBroken as e:
         proof.problem('driver', str(e))
+    # ---- the source-derived functions (Gen/PyFuncs.lean) on the same inputs, plus inputs on which the net-effect model is
+    #      totalised (sequence and structure of different lengths: the source raises IndexError there)
+    xops = []
+    for s in gen.all_strings('().+', 4):
+        for q in (['a', '+', 'b'], ['a', 'b', '+', 'c'], ['+', 'a'], ['a', 'b', 'c', '+', 'd', '+', 'e'], ['a']):
+            if len(q) != len(s):
+                xops.append(('rot1x', ' '.join(q), s))
+    ximpl = [cu.impl_op(cux, op) for op in xops]
+    res.evaluations += len(xops)
+    cu.source_derived_stream(res, proof, 'complex_utils.source-derived', allops + xops, allimpl + ximpl)
+    # ---- list-form structures whose elements are not single characters are foreign characters too
+    for el in ['', '..', '((', '()', '.(', ' ', 'x', '(.', '))', '+.', '++']:
+        for form in ([el], ['(', el, ')'], ['.', el], [el, '+', '.'], ['(', '+', el, ')']):
+            d = {'op': ['make_pair_table:list-form', repr(form)]}
+            try:
+                got = cux.make_pair_table(list(form))
+                res.violation('make_pair_table:accepts:list-element:' + repr(el), d, 'returns %r' % (got,), 'err SecondaryStructureError')
+            except Exception as e:
+                if type(e).__name__ != 'SecondaryStructureError':
+                    res.violation('make_pair_table:list-element:raises:' + type(e).__name__, d, cu.err(e), 'err SecondaryStructureError')
+            res.evaluations += 1
+    cu.object_error_kinds_elements(res, dsdobjects)
+    cu.object_tables_follow_structure(res, dsdobjects, rng, 150 if quick_tier(res) else 1500)
     for op in ops[::max(1, len(ops) // 8)]:
         res.sample('\t'.join(op))
 
